@@ -12,8 +12,8 @@ CHECKS = {
          "curve lawfulness assumed for the concrete curves; Paillier/ring-Pedersen arrays are compared across parties by direct assertion"),
  "C04": ("Lean theorems: resharing preserves the secret and the public key, the V_0 = PK check is sound for arbitrary old-committee input, chains preserve the key; the two-committee round engine (Engine2, resharing tables of both curves): over every reachable state of the closed old+new system (any order, duplicates, pre-Start) no old member ends and no new member saves before every new member has acknowledged, an acknowledgement follows all shares, a cut run leaves every old member intact, schedule independence, pre-Start = post-Start, no deadlock; the same ordering is asserted after EVERY delivery of every run (every prefix is a cut point); the new member's share-side checks (BlameRs: every announcement compared, de-commitment, share check, V_0 = y) proved for any curve; tie = whole resharing runs (both curves, proofs on/off, pre-Start, one slow packet per message type, chains, sign-after) with every member's engine trace compared with Engine2, and tampered / shifted-key runs of both curves re-judged per new member by BlameRs",
          "the cryptographic bodies of the resharing rounds are the C03/C10-C15 models plus run-level assertions; ECDSA resharing verifies the new members' factorisation proofs after the acknowledgements (R1, see DESIGN.md)"),
- "C05": ("Lean theorems about the round-level blame models (EdDSA keygen round 3, EdDSA signing round 3, ECDSA keygen rounds 2 and 3, the parameter part of an ECDSA new member's resharing round 4; ECDSA signing rounds 2, 3, 5, 7 are modelled and tied, their theorems are in Props/C05d when present): exactly the failing peers are named, never the party itself or a peer that sent nothing; an altered value covered by the commitment, the Schnorr proof or the Feldman check is blamed; honest peers pass (from C10/C15/C16), hence a single deviator is named exactly; the rounds return; accepted shares are consistent; plus the no-bad-output facts of C01/C03/C16; tie = fault injection over all six protocols (one alteration per message field found by protobuf reflection, every position, whole-message replay, acknowledgement forgery in resharing) in child processes, with every modelled round re-judged by the model from the delivered fields (kg_round3, sg_round3, ec_kg_round2/3, ec_rs_round4_params, ec_sg_round2/3/5/7)",
-         "of the ECDSA rounds, key generation rounds 2-3, signing rounds 2, 3, 5, 7 and the parameter part of resharing round 4 are modelled as round functions up to the culprit decision (all verifiers are): for the others (signing round 9 / finalize, resharing round 5) blame and output validity are direct assertions on injected runs; in signing rounds 2-3 the Go error lists a peer once per failed step, the model once (compared as sets); soundness against adaptive provers is cryptographic and not claimed; after a party has reported an error the caller must stop feeding it messages (the library does not latch failures)"),
+ "C05": ("Lean theorems about the round-level blame models (EdDSA keygen round 3, EdDSA signing round 3, ECDSA keygen rounds 2 and 3, the parameter part of an ECDSA new member's resharing round 4; ECDSA signing rounds 2, 3, 5, 7, 9 — Props/C05d, C05e; the fac-proof check of ECDSA resharing round 5 — Props/C05f): exactly the failing peers are named, never the party itself or a peer that sent nothing; an altered value covered by the commitment, the Schnorr proof or the Feldman check is blamed; honest peers pass (from C10/C15/C16), hence a single deviator is named exactly; the rounds return; accepted shares are consistent; plus the no-bad-output facts of C01/C03/C16; tie = fault injection over all six protocols (one alteration per message field found by protobuf reflection, every position, whole-message replay, acknowledgement forgery in resharing) in child processes, with every modelled round re-judged by the model from the delivered fields (kg_round3, sg_round3, ec_kg_round2/3, ec_rs_round4_params, ec_sg_round2/3/5/7/9)",
+         "of the ECDSA rounds, key generation rounds 2-3, signing rounds 2, 3, 5, 7, 9 and the parameter part of resharing round 4 are modelled as round functions up to the culprit decision (all verifiers are): for the others (signing finalize, the share side of ECDSA resharing is BlameRs) blame and output validity are direct assertions on injected runs; ONE KNOWN FINDING (KNOWN_FINDINGS.txt): in ECDSA resharing a new member's bad no-small-factor proof is detected only in round 5, after the old committee has erased (key loss for the honest parties); the check prints KNOWN-FINDING for exactly those two failure keys; in signing rounds 2-3 the Go error lists a peer once per failed step, the model once (compared as sets); soundness against adaptive provers is cryptographic and not claimed; after a party has reported an error the caller must stop feeding it messages (the library does not latch failures)"),
  "C06": ("Lean theorems that every modelled verifier/decoder returns (never `panic`) for all field values, with pre-fix crash witnesses, and the modelled round bodies return; model tied to the Go verifiers by verdict agreement on boundary grids over every field of every proof system; protocol level: boundary values in every message field and junk (random/bit-flipped/truncated bytes, wrong/out-of-range/unknown senders, flipped flags, foreign messages) through UpdateFromBytes in whole runs of all six protocols, in child processes under watchdogs, also with a single verifier worker",
          "the wire codec (protobuf) is not modelled: for undecodable bytes the only oracle is 'returns, process alive'; hangs are detected by watchdogs (runtime observation)"),
  "C07": ("Lean theorems about the round-engine model for every table: fixpoint after each update, local confluence, idempotent duplicates, schedule independence up to permutation and duplication, pre-Start = post-Start delivery, ends exactly once, and no_deadlock for the closed n-party system (all-to-all, disciplined tables; hypotheses decided for the four library tables); tie = the behaviour of every party after each event of whole runs under 9 delivery strategies, one slow packet per message type and exhaustive interleavings (EdDSA n=2) equals the model's trace; resharing runs with one slow packet per message type against Engine2",
@@ -26,7 +26,7 @@ CHECKS = {
          "completeness is proved for the model; a negligible set of coins (explicit predicate) makes honest proofs fail"),
  "C11": ("Lean theorems: for every verifier, acceptance implies every guard and every verification equation (ranges, gcds, small-prime table, Jacobi, bit lengths, the point relation), plus exact extraction lemmas (Schnorr special soundness, dln both-bits, plaintext/multiplier/mask bounds); tie = both verifiers judge false-statement families produced by the library's provers on bad witnesses and by harness-built transcripts",
          "cryptographic soundness against arbitrary provers is statistical/computational and is not stated; the no-small-factor proof has slack q^4 by design"),
- "C12": ("Lean theorems on challenge pre-image injectivity and response non-malleability (incl. the canonical fourth root of the modulus proof: a negated root is rejected, any other accepted root yields a factor); tie = both verifiers judge every substitution, single-component perturbation (+1, -1, random, zero, swap, additive inverse modulo every modulus of the statement) and every commitment/response shift of accepted proofs",
+ "C12": ("Lean theorems on challenge pre-image injectivity and response non-malleability (incl. the canonical fourth root of the modulus proof: a negated root is rejected, any other accepted root yields a factor); tie = both verifiers judge every substitution, single-component perturbation (+1, -1, random, zero, swap, additive inverse modulo every modulus of the statement) and every commitment/response shift of accepted proofs; the tail indices of the 80- and 128-fold parts also under processor counts that do not divide the repetition count",
          "collision resistance of SHA-512/256 appears as the alternative conclusion; soundness against adaptive provers not claimed"),
  "C13": ("Lean proof that the MtA exchange of the model (AliceInit, BobMid(WC), AliceEnd(WC) over the Paillier and proof-system models) yields alpha+beta = ab mod q under the no-wrap bound implied by 2048-bit moduli, that shares are produced only behind accepted proof gates, and that altered ciphertexts change the hashed pre-image; tie = whole exchanges run by the library with Alice's last step as an exact op",
          "completeness of the embedded proofs is C10; soundness against adaptive provers not claimed"),
@@ -36,7 +36,7 @@ CHECKS = {
          "concrete curves assumed lawful (tested differentially, not proved)"),
  "C16": ("Lean 4 theorems about the executable model of hash framing, commitments and the parts builder/parser; model tied to /repo by exact differential execution (own SHA-512/256) on exhaustive small tuples and layouts",
          "SHA-512/256 collision resistance appears only as a conclusion"),
- "C17": ("Lean theorems: decoders accept only canonical on-curve coordinates, flatten/unflatten round-trip, abstract cofactor clearing, torsion table by kernel evaluation; tie = exact ops against btcec/dcrd arithmetic through every door",
+ "C17": ("Lean theorems: decoders accept only canonical on-curve coordinates, flatten/unflatten round-trip, abstract cofactor clearing, torsion table by kernel evaluation; every point a modelled round accepts from a message field (commitment openings and proof points of EdDSA/ECDSA keygen, EdDSA/ECDSA signing rounds 3/5/7/9, resharing) lies on the curve, and signing round 9 names the sender of an off-curve pair (Props/C17b, with the pre-repair self-blame witness); tie = exact ops against btcec/dcrd arithmetic through every door, and, for message fields, runs of all six protocols in which one party commits to its values with one pair moved off the curve and opens correctly: every honest recipient must refuse and name the sender (signing runs re-judged by the BlameSg models)",
          "group laws of the two concrete curves are tested against the Go libraries, not proved"),
  "C18": ("Lean theorems: exact characterisation of deriveChild (IL and chain code are the halves of the HMAC, child = parent + IL*G, depth/index/version), offset accumulation over paths on every lawful curve, refusals, Lagrange coefficients sum to one so shifted shares are shares of x + delta, child key = ((off + x) mod q)*G; tie = exact derivation ops (incl. the base58 string) against the model's own HMAC-SHA512/SHA-256/RIPEMD-160, btcutil hdkeychain oracle, published BIP32 vector, derive-then-sign runs",
          "secp256k1 lawfulness assumed; signing under the child key reduces to C01 with the shifted secret (not restated)"),
